@@ -218,4 +218,13 @@ def recover (db : DB) (order1 order2 : List Nat) : RecRes :=
       | _ => .panic "flush"
     | _ => .panic "flush"
 
+/-- the cache right before the flush that ends recovery writes its first page (`none` when recovery
+does not get that far) - the state a second crash, inside that flush, tears -/
+def recoverPre (db : DB) : Option Store :=
+  match replayAll db.wal (reopen db.store) with
+  | (s, some msg, _) =>
+    if msg.startsWith "panic:" || msg.startsWith "unmodelled:" || msg == "hang" then none else some s
+  | (s, none, true) => some s
+  | (s, none, false) => some { s with hdr := { s.hdr with nextLSN := s.hdr.nextLSN + 1 } }
+
 end Mkdb.Engine
